@@ -176,6 +176,22 @@ class Path:
         self.assume(cond if d else z3.Not(cond))
         return d
 
+    def implied(self, goal, timeout_ms=1500):
+        """quick in-process proof attempt of ``goal`` from the path facts (with
+        instantiated quantified facts); used only to SIMPLIFY encodings (both the
+        simplified and the unsimplified encoding are exact under the facts)"""
+        from . import solve
+        try:
+            ground, quants, instances, neg = solve.prepare(self.facts, goal)
+            s = z3.Solver()
+            s.set("timeout", timeout_ms)
+            for h in ground + instances:
+                s.add(h)
+            s.add(neg)
+            return s.check() == z3.unsat
+        except Exception:
+            return False
+
     def ordinal(self, key):
         c = self.ordinals.get(key, 0)
         self.ordinals[key] = c + 1
@@ -340,6 +356,7 @@ class Engine:
         self.builtins = {}
         self.assumptions = set()
         self.functions_seen = set()
+        self.auto_inlined = set()
         from . import lib_builtin
         lib_builtin.install(self)
         try:
@@ -490,17 +507,24 @@ class Engine:
             return
         # normal return: postconditions
         # a function that must raise under some condition must not return then
-        if c.raises_exact:
-            for exc_name, condfn in c.raises.items():
-                cond = condfn(**args)
-                path.oblige("raises", f"{exc_name}-missed", spec.Not(cond))
+        must = getattr(c, "must_raise", None)
+        if must is None and c.raises_exact:
+            must = c.raises
+        for exc_name, condfn in (must or {}).items():
+            cond = condfn(**args)
+            path.oblige("raises", f"{exc_name}-missed", spec.Not(cond))
         gf = getattr(c, "ghost_final", None)
         if gf is not None and interp.top_env is not None:
             for gn, gv in gf(interp, State(interp.top_env, {}), result).items():
                 interp.top_env.set("__g_" + gn, gv)
         ens = _call_ensures(c, result, args, interp.top_env)
         for nm, cond in _named(ens):
-            path.oblige("post", nm, cond)
+            if nm.startswith("hint:"):
+                # intermediate lemma: proved from what is known so far, then available to the later clauses
+                path.oblige("hint", nm[5:], cond)
+                path.assume(cond)
+            else:
+                path.oblige("post", nm, cond)
 
     def _check_raise(self, path, c, args, exc):
         matched = False
@@ -700,7 +724,9 @@ class Interp:
                 return self.apply_contract(c, fn, args, kwargs, node)
             if c is None and not getattr(fn, "allow_inline", False) and fn.qualname.count("<") == 0 \
                     and target not in self.engine.inline_ok:
-                raise MissingContract(f"call to {target} has neither a contract nor an inline mark")
+                # a repository function without a contract: execute its real body at the call site
+                # (keeps the check robust against harmless extract-helper refactorings); recorded
+                self.engine.auto_inlined.add(target)
             return self.call_closure(fn, args, kwargs)
         if isinstance(fn, LibFunc):
             return fn.fn(self, *args, **kwargs)
@@ -2034,6 +2060,8 @@ class Interp:
         self.path.assume(z3.And(k >= -n, k < n))
         if isinstance(key, int):
             return k if key >= 0 else n + k
+        if self.path.implied(k >= 0, 800):
+            return k
         return z3.If(k < 0, k + n, k)
 
     def slice_bounds(self, sl: SliceV, n):
@@ -2041,9 +2069,13 @@ class Interp:
         def clamp(x, default):
             if x is None:
                 return default
+            if isinstance(x, int) and x >= 0 and False:
+                pass
             x = to_term(x)
+            if not z3.is_int_value(x) and self.path.implied(z3.And(x >= 0, x <= n)):
+                return x
             x = z3.If(x < 0, x + n, x)
-            return z3.If(x < 0, z3.IntVal(0), z3.If(x > n, n, x))
+            return z3.simplify(z3.If(x < 0, z3.IntVal(0), z3.If(x > n, n, x)))
         lo = clamp(sl.start, z3.IntVal(0))
         hi = clamp(sl.stop, n)
         return lo, hi
